@@ -77,7 +77,7 @@ WRAPPERS = ["pre:exp", "pre:tanh"]
 U_RED = ["ptw:exp", "ptw:sqrt", "ptw:tanh", "neg", "smul:c", "fmul", "mat", "conj", "real", "sum", "vdotc",
          "dl:u", "get:u", "einsum", "gauss_d", "poisson", "esmul", "ham"]
 B_RED = ["add", "mul", "vdot", "pair", "eadd"]
-U_CTX = ["ptw:exp", "smul:c", "mat", "conj", "sum", "dl:u", "gauss_d"]     # contexts of the quick mixed block
+U_CTX = ["ptw:exp", "smul:c", "mat", "conj", "sum", "dl:u", "get:u", "gauss_d"]     # contexts of the quick mixed block
 B_CTX = ["add", "mul", "vdot", "pair"]
 U_TINY = ["ptw:exp", "conj", "sum"]
 B_TINY = ["mul", "vdot"]
@@ -450,7 +450,7 @@ def finish(run):
         _, dts, o = k.split("|", 2)
         per.setdefault(o, {})[dts] = v
     # no vacuity: every point-wise function must have been verified (real; complex for the holomorphic ones)
-    for f in X.PTW_ALL:
+    for f in ([] if run.extra.get("filtered_by") else X.PTW_ALL):      # (not meaningful on a VERIF_FILTER slice)
         need = ["real"] + ([] if f.split(":")[0] in X.NONHOLO else ["complex"])
         for dts in need:
             if per.get("ptw:" + f, {}).get(dts, 0) == 0 and not any(
